@@ -74,10 +74,19 @@ def input_features(rops):
             last.add(n - 1)
     adj = {i: [] for i in range(len(flat))}
     ctx_before_jump = False
+    ctx_before_block = False
+    targets = set()
+    for op in flat:
+        if op.op_code.name in lts.JUMP_INDEX:
+            targets.add(op.params[lts.JUMP_INDEX[op.op_code.name]])
+    entry_jump_targeted = any(r and r[0].op_code.name == "Jump" and r[0].offset in targets for r in rops)
     for i, op in enumerate(flat):
         name = op.op_code.name
         if name in ("lives", "object", "performer") and i + 1 < len(flat) and flat[i + 1].op_code.name == "Jump":
             ctx_before_jump = True
+        if name in ("lives", "object", "performer") and i + 1 < len(flat) and (
+                flat[i + 1].op_code.name.startswith(("message_Switch", "Switch", "Branch", "Case")) or flat[i + 1].op_code.name in ("lives", "object", "performer")):
+            ctx_before_block = True
         if name in ("Return", "End", "Hold"):
             continue
         if name in lts.JUMP_INDEX:
@@ -110,7 +119,8 @@ def input_features(rops):
                 stack.pop()
         if cyclic:
             break
-    return {"cyclic": cyclic, "ctx_before_jump": ctx_before_jump}
+    return {"cyclic": cyclic, "ctx_before_jump": ctx_before_jump, "ctx_before_block": ctx_before_block,
+            "entry_jump_targeted": entry_jump_targeted}
 
 
 def where_of(exc):
